@@ -255,6 +255,22 @@ def _r13_own_mass(ctx, pkg):
         # private helpers the getter calls (a generator of the per-element contributions, a summing helper) are part of it
         from .c09 import method_closure
         helpers = [h for h in method_closure(pkg, "Species", fn)[1:] if not any(ast.unparse(d) in ("property", "cached_property", "functools.cached_property") for d in h.decorator_list)]
+        # ... and so are the plain functions of the module that are handed the species itself (`_add_up(self)`), their parameter standing for it
+        import copy
+        from ..normalize import _Subst
+        for g_ in list(helpers) + [fn]:
+            for c_ in ast.walk(g_):
+                if isinstance(c_, ast.Call) and isinstance(c_.func, ast.Name) and (SPECIES, c_.func.id) in pkg.functions and not c_.keywords:
+                    mf = pkg.functions[(SPECIES, c_.func.id)]
+                    at = [i for i, a_ in enumerate(c_.args) if isinstance(a_, ast.Name) and a_.id == "self"]
+                    if len(at) == 1 and at[0] < len(mf.args.args) and not any(h_.name == mf.name for h_ in helpers):
+                        pn = mf.args.args[at[0]].arg
+                        if pn != "self" and any(isinstance(n_, ast.Name) and n_.id == "self" for n_ in ast.walk(mf)):
+                            continue
+                        m2 = copy.deepcopy(mf)
+                        if pn != "self":
+                            m2.body = [_Subst({pn: ast.Name(id="self", ctx=ast.Load())}).visit(st_) for st_ in m2.body]
+                        helpers.append(m2)
         for h in helpers:
             if any(isinstance(x, ast.Attribute) and x.attr == "element_count" and isinstance(x.value, ast.Name) and x.value.id == "self" for x in ast.walk(h)):
                 composed = True
